@@ -4,6 +4,8 @@
 package main
 
 import (
+	"crypto/sha256"
+	"encoding/hex"
 	"flag"
 	"fmt"
 	"os"
@@ -22,6 +24,8 @@ import (
 	colkeeper "github.com/KiraCore/sekai/x/collectives/keeper"
 	coltypes "github.com/KiraCore/sekai/x/collectives/types"
 	govtypes "github.com/KiraCore/sekai/x/gov/types"
+	reckeeper "github.com/KiraCore/sekai/x/recovery/keeper"
+	rectypes "github.com/KiraCore/sekai/x/recovery/types"
 	"github.com/KiraCore/sekai/x/spending"
 	spkeeper "github.com/KiraCore/sekai/x/spending/keeper"
 	sptypes "github.com/KiraCore/sekai/x/spending/types"
@@ -43,6 +47,36 @@ type env struct {
 	roles  map[int][]uint64
 	r      *hx.Rng
 	dist   hx.Counter
+	funded []int // accounts that hold funds (and an auth account) at the start of a history
+	spares []int // addresses without an account: targets of address rotations
+	payer  sdk.AccAddress
+}
+
+// block times carry a nanosecond part (the code under test compares whole seconds)
+var nanoParts = []int64{0, 0, 1, 999999999, 500000000}
+
+func secretOf(i int) string { return hex.EncodeToString([]byte(fmt.Sprintf("c18 recovery secret %d", i))) }
+
+// rotate: the real MsgRotateRecoveryAddress a -> a2; pre = the preconditions outside the C18 models
+// (recovery secret and proof, rotation history, account existence) as read from the real state
+func (e *env) rotate(h sdk.Context, a, a2 int, goodProof bool) (pre bool, f func(c sdk.Context) error) {
+	rk := e.app.RecoveryKeeper
+	_, rerr := rk.GetRecoveryRecord(h, e.accts[a].String())
+	pre = rerr == nil && goodProof && rk.GetRotationHistory(h, e.accts[a2].String()).Rotated == "" &&
+		e.app.AccountKeeper.GetAccount(h, e.accts[a]) != nil && e.app.AccountKeeper.GetAccount(h, e.accts[a2]) == nil && a != a2
+	proof := secretOf(a)
+	if !goodProof {
+		proof = secretOf(a + 100)
+	}
+	f = func(c sdk.Context) error {
+		msg := &rectypes.MsgRotateRecoveryAddress{FeePayer: e.payer.String(), Address: e.accts[a].String(), Recovery: e.accts[a2].String(), Proof: proof}
+		if err := msg.ValidateBasic(); err != nil {
+			return err
+		}
+		_, err := reckeeper.NewMsgServerImpl(rk).RotateRecoveryAddress(sdk.WrapSDKContext(c), msg)
+		return err
+	}
+	return pre, f
 }
 
 // ---------------------------------------------------------------- emit helpers
@@ -102,7 +136,7 @@ func errStr(err error, pan string) string {
 // run executes f in a cache context at block time `now`; state is written only on success
 // (what baseapp does for a transaction and the gov router for Apply).
 func (e *env) run(h sdk.Context, now int64, f func(c sdk.Context) error) (error, string) {
-	c, write := h.WithBlockTime(time.Unix(now, 0).UTC()).WithBlockHeight(h.BlockHeight() + 1).CacheContext()
+	c, write := h.WithBlockTime(time.Unix(now, nanoParts[e.r.Intn(len(nanoParts))]).UTC()).WithBlockHeight(h.BlockHeight() + 1).CacheContext()
 	var err error
 	pan := hx.Try(func() { err = f(c) })
 	if pan == "" && err == nil {
@@ -272,7 +306,8 @@ func (e *env) spendingHistory(id int) (string, interface{}) {
 	h, _ := e.base.CacheContext()
 	// guided histories start with: create a live pool, fund it, register beneficiaries
 	guided := r.Chance(70)
-	for _, a := range e.accts {
+	for _, ai := range e.funded {
+		a := e.accts[ai]
 		coins := sdk.Coins{}
 		for _, d := range denoms {
 			amt := []int64{10000000, 10000000, 500, 100000}[r.Intn(4)]
@@ -400,7 +435,7 @@ func (e *env) spendingHistory(id int) (string, interface{}) {
 			gstep = step
 			choice = []int{0, 10, 30, 30, 30}[step]
 		} else if guided && r.Chance(35) {
-			choice = []int{50, 50, 50, 90, 30}[r.Intn(5)] // claim, claim, claim, end block, register
+			choice = []int{50, 50, 50, 90, 30, 93, 50}[r.Intn(7)] // claim x3, end block, register, rotate, claim
 		}
 		switch {
 		case choice < 6: // create
@@ -426,7 +461,10 @@ func (e *env) spendingHistory(id int) (string, interface{}) {
 				for i := range t.Rates {
 					t.Rates[i].Amount = sdk.MustNewDecFromStr([]string{"1", "0.5", "2.5", "10", "0.1", "385", "0.333333333333333333"}[r.Intn(7)])
 				}
-				for len(t.Ben.Accounts) < 2 {
+				if len(t.Ben.Roles) == 0 || r.Chance(50) { // beneficiaries entitled through a role
+					t.Ben.Roles = append(t.Ben.Roles, sptypes.WeightedRole{Role: roleIDs[r.Intn(3)], Weight: sdk.MustNewDecFromStr(weightStrs[r.Intn(len(weightStrs))])})
+				}
+				for len(t.Ben.Accounts) < 1 {
 					t.Ben.Accounts = append(t.Ben.Accounts, sptypes.WeightedAccount{Account: e.accts[r.Intn(len(e.accts))].String(), Weight: sdk.MustNewDecFromStr(weightStrs[r.Intn(len(weightStrs))])})
 				}
 			}
@@ -546,10 +584,32 @@ func (e *env) spendingHistory(id int) (string, interface{}) {
 			f = func(c sdk.Context) error {
 				return spending.NewApplySpendingPoolWithdrawProposalHandler(k, e.app.BankKeeper).Apply(c, 1, &sptypes.SpendingPoolWithdrawProposal{PoolName: poolNames[p], Beneficiaries: bs, Amounts: amt}, sdk.ZeroDec())
 			}
-		case choice < 97: // end block
+		case choice < 92: // end block
 			opCoq = "OEndBlock"
 			j["op"] = "end_block"
 			f = func(c sdk.Context) error { k.EndBlocker(c); return nil }
+		case choice < 95: // address rotation of a beneficiary (x/recovery): roles, funds and claim records move
+			p := pickPool()
+			a := pickFrom(registered(p), 85)
+			a2 := e.spares[r.Intn(len(e.spares))]
+			if r.Chance(5) {
+				a2 = r.Intn(len(e.accts))
+			}
+			pre, ff := e.rotate(h, a, a2, !r.Chance(10))
+			opCoq = fmt.Sprintf("ORotate %d %d %s", a, a2, hx.B(pre))
+			j["op"], j["a"], j["to"], j["pre_ok"] = "rotate_address", a, a2, pre
+			f = ff
+		case choice < 97: // the pool is funded from a module account (what x/ubi does after minting)
+			p := pickPool()
+			amt := sdk.NewCoins(sdk.NewInt64Coin("ukex", []int64{1, 1000, 2000000, 500000}[r.Intn(4)]))
+			opCoq = fmt.Sprintf("OModuleDeposit %d %s", p, lcoins(amt))
+			j["op"], j["p"], j["amt"] = "module_deposit", p, amt.String()
+			f = func(c sdk.Context) error {
+				if err := e.app.TokensKeeper.MintCoins(c, minttypes.ModuleName, amt); err != nil {
+					return err
+				}
+				return k.DepositSpendingPoolFromModule(c, minttypes.ModuleName, poolNames[p], amt)
+			}
 		default: // plain transfer to the module account
 			a := r.Intn(len(e.accts))
 			amt := e.randCoins(1, []int64{1, 50, 1000})
@@ -573,8 +633,18 @@ func (e *env) spendingHistory(id int) (string, interface{}) {
 			}
 		}
 		sort.Slice(keys, func(i, j int) bool { return keys[i][0] < keys[j][0] || (keys[i][0] == keys[j][0] && keys[i][1] < keys[j][1]) })
+		for key := range snap.claims { // deleted records are reported with LastClaim -1
+			if _, ok := after.claims[key]; !ok {
+				keys = append(keys, key)
+			}
+		}
+		sort.Slice(keys, func(i, j int) bool { return keys[i][0] < keys[j][0] || (keys[i][0] == keys[j][0] && keys[i][1] < keys[j][1]) })
 		for _, key := range keys {
-			cc = append(cc, hx.Pair(hx.Pair(hx.Z(int64(key[0])), hx.Z(int64(key[1]))), hx.ZU(after.claims[key])))
+			if v, ok := after.claims[key]; ok {
+				cc = append(cc, hx.Pair(hx.Pair(hx.Z(int64(key[0])), hx.Z(int64(key[1]))), hx.ZU(v)))
+			} else {
+				cc = append(cc, hx.Pair(hx.Pair(hx.Z(int64(key[0])), hx.Z(int64(key[1]))), "(-1)"))
+			}
 		}
 		dl, nb, dj := e.deltas(h, bals)
 		bals = nb
@@ -803,7 +873,8 @@ func (e *env) collHistory(id int, witness bool) (string, interface{}) {
 	k := e.app.CollectivesKeeper
 	ms := colkeeper.NewMsgServerImpl(k)
 	h, _ := e.base.CacheContext()
-	for _, a := range e.accts {
+	for _, ai := range e.funded {
+		a := e.accts[ai]
 		coins := sdk.Coins{}
 		for _, d := range denoms {
 			coins = coins.Add(sdk.NewInt64Coin(d, []int64{1000000, 1000000, 20, 5000}[r.Intn(4)]))
@@ -1007,6 +1078,19 @@ func (e *env) collHistory(id int, witness bool) (string, interface{}) {
 			f = func(c sdk.Context) error {
 				return collectives.NewApplyCollectiveSendDonationProposalHandler(k).Apply(c, 1, &coltypes.ProposalCollectiveSendDonation{Name: collNames[ci], Address: e.accts[to].String(), Amounts: amt}, sdk.ZeroDec())
 			}
+		case choice < 98: // address rotation of a contributor (x/recovery): funds, roles and bond records move
+			a := r.Intn(len(e.accts))
+			if cs := contributors(ci); len(cs) > 0 && r.Chance(85) {
+				a = cs[r.Intn(len(cs))]
+			}
+			a2 := e.spares[r.Intn(len(e.spares))]
+			if r.Chance(5) {
+				a2 = r.Intn(len(e.accts))
+			}
+			pre, ff := e.rotate(h, a, a2, !r.Chance(10))
+			opCoq = fmt.Sprintf("CRotate %d %d %s", a, a2, hx.B(pre))
+			j["op"], j["a"], j["to"], j["pre_ok"] = "rotate_address", a, a2, pre
+			f = ff
 		default: // remove proposal
 			opCoq = fmt.Sprintf("CRemove %d", ci)
 			j["op"] = "remove_proposal"
@@ -1129,15 +1213,17 @@ func main() {
 	e := &env{app: app, base: base, r: hx.NewRng(seed), dist: hx.Counter{}, acctID: map[string]int{}, roles: map[int][]uint64{}}
 
 	// accounts, sorted by bech32 string (the order of the collectives' contributor index)
-	for i := 0; i < 6; i++ {
+	for i := 0; i < 9; i++ {
 		e.accts = append(e.accts, sdk.AccAddress(fmt.Sprintf("c18_account_%d_______", i)))
 	}
+	e.funded, e.spares = []int{0, 1, 3, 4, 6, 7}, []int{2, 5, 8}
+	e.payer = sdk.AccAddress("c18_fee_payer_______")
 	sort.Slice(e.accts, func(i, j int) bool { return e.accts[i].String() < e.accts[j].String() })
 	for i, a := range e.accts {
 		e.acctID[a.String()] = i
 	}
-	e.roles = map[int][]uint64{1: {10}, 2: {11, 10}, 3: {10, 11}, 4: {12}}
-	for i := 0; i < 6; i++ {
+	e.roles = map[int][]uint64{1: {10}, 3: {11, 10}, 4: {10, 11}, 6: {12}}
+	for i := 0; i < 9; i++ {
 		if rs, ok := e.roles[i]; ok {
 			actor := govtypes.NewDefaultActor(e.accts[i])
 			app.CustomGovKeeper.SaveNetworkActor(base, actor)
@@ -1145,6 +1231,15 @@ func main() {
 				actor, _ = app.CustomGovKeeper.GetNetworkActorByAddress(base, e.accts[i])
 				app.CustomGovKeeper.AssignRoleToActor(base, actor, ro)
 			}
+		}
+	}
+	// every funded account has registered a recovery secret; rotations are paid by a separate account
+	e.fund(base, e.payer, sdk.NewCoins(sdk.NewInt64Coin("ukex", 1000000000000000)))
+	for _, i := range e.funded {
+		sum := sha256.Sum256([]byte(fmt.Sprintf("c18 recovery secret %d", i)))
+		if _, err := reckeeper.NewMsgServerImpl(app.RecoveryKeeper).RegisterRecoverySecret(sdk.WrapSDKContext(base),
+			&rectypes.MsgRegisterRecoverySecret{Address: e.accts[i].String(), Challenge: hex.EncodeToString(sum[:]), Nonce: "00"}); err != nil {
+			panic(err)
 		}
 	}
 	// the module accounts exist (as after genesis), so a plain transfer cannot create a base account there
@@ -1180,7 +1275,7 @@ func main() {
 	pre.WriteString("From Sekai Require Import Base.Prelude Base.Dec Model.Spending Model.Ubi Model.Collectives Model.C18Check.\n")
 	var as []string
 	// actors in raw address byte order: the order of the role -> actor index (GetNetworkActorsByRole)
-	byBytes := []int{0, 1, 2, 3, 4, 5}
+	byBytes := []int{0, 1, 2, 3, 4, 5, 6, 7, 8}
 	sort.Slice(byBytes, func(i, j int) bool { return string(e.accts[byBytes[i]]) < string(e.accts[byBytes[j]]) })
 	for _, i := range byBytes {
 		if rs, ok := e.roles[i]; ok {
@@ -1192,6 +1287,7 @@ func main() {
 		}
 	}
 	pre.WriteString("Definition c18_actors : list (Z * list Z) := " + hx.List(as) + ".\n")
+	pre.WriteString("Definition c18_order : list Z := " + zlist(byBytes) + ".\n")
 	pre.WriteString("Definition c18_denoms : list Z := [0; 1; 2].\n")
 	pre.WriteString("(* model variants, decided by probing the tree *)\n")
 	pre.WriteString("Definition c18_dynguard : bool := " + hx.B(probes["spending_endblock_guards_denominator"]) + ".\n")
@@ -1202,7 +1298,7 @@ func main() {
 	pre.WriteString("Definition c18_remove_atomic : bool := " + hx.B(probes["collective_remove_returns_error"]) + ".\n")
 	out.WriteFile("pre.v", pre.String())
 	out.WriteFile("cases.txt", strings.Join(cases, "\n")+"\n")
-	out.WriteJSON("meta.json", map[string]string{"case_type": "c18_case", "mismatch_fn": "c18_mismatches c18_dynguard c18_payout_safe c18_quorum_checked c18_gate_exact c18_ubi_bigint c18_remove_atomic c18_actors c18_denoms", "violation_fn": "c18_violations c18_actors c18_denoms"})
+	out.WriteJSON("meta.json", map[string]string{"case_type": "c18_case", "mismatch_fn": "c18_mismatches c18_dynguard c18_payout_safe c18_quorum_checked c18_gate_exact c18_ubi_bigint c18_remove_atomic c18_actors c18_order c18_denoms", "violation_fn": "c18_violations c18_actors c18_order c18_denoms"})
 	out.WriteJSON("cases.json", js)
 	out.WriteJSON("dist.json", map[string]interface{}{"seed": seed, "histories": len(js), "ops_by_kind_and_result": e.dist, "probes": probes, "accounts": len(e.accts), "denoms": denoms})
 	fmt.Fprintf(os.Stderr, "c18: %d histories\n", len(js))
